@@ -4,6 +4,8 @@ CONSTANTS
   Ctxs = {"top"}
   CondSet = {}
   MaxConds = 0
+  ElseSet = {}
+  NCondSet = {}
   AVals <- Range6
   BVals <- Range6
   TVals <- Range6
